@@ -334,6 +334,7 @@ def main():
                 run.add("pipeline.T'AT.contact%d[%s %s%d on [%d] x %s%d on [%d]]" % (ncommon, mesh, tsp[0], tsp[1], a, rsp[0], rsp[1], b), "post",
                         PL.ob_pipeline, mesh, tsp, rsp, di[mesh])
     run.add("nesting.laplace_single.DP0", "bounded", ob_nesting, "laplace_single", "DP0")
+    run.add("nesting.laplace_double.DP0", "bounded", ob_nesting, "laplace_double", "DP0")      # normal-dependent: sees the orientation of the refined elements
     if thorough:
         run.add("nesting.laplace_single.P1", "bounded", ob_nesting, "laplace_single", "P1")
         run.add("nesting.laplace_hyp.P1", "bounded", ob_nesting, "laplace_hyp", "P1")
